@@ -110,8 +110,17 @@ pub mod c19_std {
         }
     }
 
+    /// `==` on T (as modelled by eq_spec) is symmetric and transitive
+    pub open spec fn eq_is_equivalence<T: PartialEq>() -> bool {
+        &&& forall|a: T, b: T| #[trigger] vstd::std_specs::cmp::PartialEqSpec::eq_spec(&a, &b) ==> vstd::std_specs::cmp::PartialEqSpec::eq_spec(&b, &a)
+        &&& forall|a: T, b: T, c: T| #[trigger] vstd::std_specs::cmp::PartialEqSpec::eq_spec(&a, &b) && #[trigger] vstd::std_specs::cmp::PartialEqSpec::eq_spec(&b, &c)
+                ==> vstd::std_specs::cmp::PartialEqSpec::eq_spec(&a, &c)
+    }
+
     // `Vec::dedup`: "Removes consecutive repeated elements in the vector according to the PartialEq trait
-    // implementation.  If the vector is sorted, this removes all duplicates."
+    // implementation.  If the vector is sorted, this removes all duplicates."  The implementation compares each
+    // element with the last RETAINED one; for an equivalence relation that is the same as comparing with the
+    // predecessor (dedup_seq), hence the guard.
     pub assume_specification<T: PartialEq, A: Allocator> [ Vec::<T, A>::dedup ] (v: &mut Vec<T, A>)
-        ensures <T as vstd::std_specs::cmp::PartialEqSpec>::obeys_eq_spec() ==> final(v)@ == dedup_seq(old(v)@);
+        ensures <T as vstd::std_specs::cmp::PartialEqSpec>::obeys_eq_spec() && eq_is_equivalence::<T>() ==> final(v)@ == dedup_seq(old(v)@);
 }
